@@ -240,6 +240,39 @@ def run(ctx):
     table(ctx, RULE, 'EightChar::get_fetal_origin', C, lambda i: nm(t.m(ec(0, i, 0, 0), 'get_fetal_origin')), lambda i: G.STEMS[(i + 1) % 10] + G.BRANCHES[(i + 3) % 12], u'胎元 = month stem +1, branch +3', cn, fn_site(p, 'EightChar::get_fetal_origin'))
     table(ctx, RULE, 'EightChar::get_fetal_breath', C, lambda i: nm(t.m(ec(0, 0, i, 0), 'get_fetal_breath')), lambda i: G.FIVE_COMBINE[cn(i)[0]][0] + G.SIX_COMBINE[cn(i)[1]][0], u'胎息 = five-combination stem + six-combination branch of the day pillar', cn, fn_site(p, 'EightChar::get_fetal_breath'))
 
+    # ---- 命宫 / 身宫 (own sign / body sign): palace found by the classical counting, its stem by the Five-Tigers rule of the year stem
+    def palace_pillar(ys, b):
+        k = (b - 2) % 12                       # the palace's place in the year's month sequence 寅..丑
+        return G.STEMS[((ys % 5 + 1) * 2 + k) % 10] + G.BRANCHES[b]
+
+    def own_orc(x):
+        ys, mi, hi = x
+        pos = 0                                # 子上起正月, 逆数至生月
+        for _ in range((mi - 2) % 12):
+            pos = (pos - 1) % 12
+        h = hi                                 # 生月宫起生时, 顺数至卯
+        while h != 3:
+            h = (h + 1) % 12
+            pos = (pos + 1) % 12
+        return palace_pillar(ys, pos)
+
+    def body_orc(x):
+        ys, mi, hi = x
+        pos = 0                                # 子上起正月, 顺数至生月
+        for _ in range((mi - 2) % 12):
+            pos = (pos + 1) % 12
+        h = hi                                 # 生月宫起生时, 逆数至酉
+        while h != 9:
+            h = (h + 1) % 12
+            pos = (pos - 1) % 12
+        return palace_pillar(ys, pos)
+    SG = [(ys, mi, hi) for ys in range(10) for mi in range(12) for hi in range(12)]
+    sgf = lambda x: u'year stem %s, month branch %s, hour branch %s' % (G.STEMS[x[0]], G.BRANCHES[x[1]], G.BRANCHES[x[2]])
+    table(ctx, RULE, 'EightChar::get_own_sign', SG, lambda x: nm(t.m(ec(x[0], x[1], 0, x[2]), 'get_own_sign')), own_orc,
+          u'命宫: month counted backwards from 子, hour forwards to 卯; stem of the palace by the Five-Tigers rule', sgf, fn_site(p, 'EightChar::get_own_sign'))
+    table(ctx, RULE, 'EightChar::get_body_sign', SG, lambda x: nm(t.m(ec(x[0], x[1], 0, x[2]), 'get_body_sign')), body_orc,
+          u'身宫: month counted forwards from 子, hour backwards to 酉; stem of the palace by the Five-Tigers rule', sgf, fn_site(p, 'EightChar::get_body_sign'))
+
     # ---- a value built BY NAME is the same cycle element as the one built by index: same position, same cycle length, same successor
     cyc = sorted(n_ for n_, st in p.structs.items() if [f for f, ty_ in st['fields']] == ['parent'] and st['fields'][0][1].replace(' ', '') == 'LoopTyme')
     for ty_ in cyc:
@@ -259,7 +292,7 @@ def run(ctx):
             return None
         ctx.guard('PETE-TABLE', 'BY-NAME:%s' % ty_, by_name, 12, {'type': ty_})
 
-    ctx.not_decided.append('nothing inside the statement: every listed attribute is a finite table (own-sign / body-sign of the eight characters are outside the statement and not claimed)')
+    ctx.not_decided.append('nothing inside the statement: every listed attribute is a finite table')
     ctx.assumptions.append('the oracle tables in /verif/oracles/ganzhi.py are correct transcriptions of the classical rules quoted next to them')
     return ('PETE finite-table evaluation of every stem/branch/cycle attribute getter from the syntax tree, over the whole index domain, '
             'compared with name-level first-principles oracles; involution and inverse-pair laws checked exhaustively')
